@@ -86,7 +86,19 @@ def get_repo():
             print("verif: /repo does not parse; a tree that does not build has no properties", file=sys.stderr)
             sys.exit(2)
         os.replace(tmp, out)
-    _repo = ast.Repo(out, REPO)
+    from . import canon
+    data0 = json.load(open(out))
+    n_loops = canon.desugar_loops(data0)  # for_each / try_for_each statements read as `for` loops
+    _repo = ast.Repo(out, REPO, _data=data0)
+    # private types that were merely renamed (same module, same fields) are read under their reference names, like functions below
+    type_renames = {}
+    if os.path.exists(canon.TABLE):
+        types = json.load(open(canon.TABLE)).get("__types__", {})
+        type_renames = canon.compute_type_renames(_repo, types)
+        if type_renames:
+            canon.apply_type_renames(data0, type_renames)
+            _repo = ast.Repo(out, REPO, _data=data0)
+    _repo.desugared_loops = n_loops
     # functions that were merely renamed are read under their reference names (vlib/canon.py)
     from . import canon
     renames, log = canon.compute_renames(_repo)
@@ -95,6 +107,8 @@ def get_repo():
         canon.apply_to_ast(data, renames)
         _repo = ast.Repo(out, REPO, _data=data)
         _repo.renames, _repo.rename_log = renames, log
+    if type_renames:
+        _repo.renames = dict(_repo.renames, **type_renames)  # the MIR facts are read with both kinds of names mapped back
     return _repo
 
 
